@@ -73,6 +73,15 @@ def nodes (t : Table) : List (Ptr × Ptr) := t.flatten
 def keys (t : Table) : List Ptr := (nodes t).map (·.1)
 def values (t : Table) : List Ptr := (nodes t).map (·.2)
 def lookupByValue (t : Table) (v : Ptr) : List Ptr := ((nodes t).filter (·.2 = v)).map (·.1)
+/-- `p_hash_table_lookup_by_value` with a compare function: `p x` stands for `func (x, val) == 0`, asked of the stored
+    value (first argument) — the keys of the nodes whose value the function calls equal, in table order -/
+def lookupByValueF (t : Table) (p : Ptr → Bool) : List Ptr := ((nodes t).filter (fun n => p n.2)).map (·.1)
+
+/-- `p_hash_table_insert` when `p_malloc0` fails: an existing node is overwritten as usual (no allocation on that path),
+    a new key is not added and the table is left exactly as it was -/
+def insertAtOOM (t : Table) (h : Nat) (k v : Ptr) : Table :=
+  if (findNode (chainAt t h) k).isSome then t.set h (setNode (chainAt t h) k v) else t
+def insertOOM (t : Table) (k v : Ptr) : Option Table := (hash k).map fun h => insertAtOOM t h k v
 
 /-! ### PList -/
 abbrev PList := List Ptr
@@ -97,6 +106,14 @@ def lLast (l : PList) : Option Ptr :=
   | [] => none
   | [x] => some x
   | _ :: y :: ys => lLast (y :: ys)
+/-- `p_list_foreach`: the data handed to the callback, call by call -/
+def lForeach (l : PList) : List Ptr :=
+  match l with
+  | [] => []
+  | x :: xs => x :: lForeach xs
+/-- `p_list_append` / `p_list_prepend` when the node cannot be allocated: the list comes back as it was -/
+def lAppendOOM (l : PList) (_d : Ptr) : PList := l
+def lPrependOOM (l : PList) (_d : Ptr) : PList := l
 def lLength (l : PList) : Nat :=
   match l with
   | [] => 0
